@@ -224,12 +224,21 @@ impl Nfa {
         match expr.kind() {
             HirKind::Empty => Ok(accept),
 
-            HirKind::Literal(Literal(l)) => Ok(l.iter().rev().fold(accept, |accept, &b| {
-                let s0 = self.new_state(StateKind::Neither);
-                self.push_edge(s0, Test::byte(b), accept);
-                self.push_edge(s0, Other, reject);
-                s0
-            })),
+            HirKind::Literal(Literal(l)) => {
+                // The HIR stores a literal as UTF-8 bytes, but classes are tested per code
+                // point: walk the literal by code points too, so that `é` and `[éa]` are
+                // seen to overlap. (Bytes that are not UTF-8 are kept as they are.)
+                let tests: Vec<Test> = match core::str::from_utf8(l) {
+                    Ok(s) => s.chars().map(Test::char).collect(),
+                    Err(_) => l.iter().map(|&b| Test::byte(b)).collect(),
+                };
+                Ok(tests.into_iter().rev().fold(accept, |accept, test| {
+                    let s0 = self.new_state(StateKind::Neither);
+                    self.push_edge(s0, test, accept);
+                    self.push_edge(s0, Other, reject);
+                    s0
+                }))
+            }
 
             HirKind::Class(class) => {
                 match *class {
